@@ -1029,6 +1029,9 @@ func (x *Exec) enterLoop(fr *Frame, li *LoopInfo, cur *State) {
 		fr.env[phi] = nv
 	}
 	for _, k := range sortedKeys(cur.H) {
+		if strings.HasPrefix(k, "Lock.") && !prefixMatches(k, prefixes) {
+			continue
+		}
 		if all || prefixMatches(k, prefixes) || k == "$alloc" && prefixes["$alloc"] {
 			old := cur.H[k]
 			nw := x.vc.fresh(fmt.Sprintf("H.%s@L%d", k, li.Ordinal), old.S)
